@@ -61,6 +61,9 @@ type Frame struct {
 	bindings map[ssa.Value]*Val // free variables of closures
 	debugRefs []*ssa.DebugRef
 	oblPrefix string
+	ghosts    []*Val
+	namedVars map[ssa.Value]bool
+	topNames  map[string]*Val
 }
 
 func (fr *Frame) pos() token.Position {
@@ -260,6 +263,9 @@ func (fr *Frame) run() {
 				vs = append(vs, fr.value(ph.Edges[i]))
 			}
 			fr.vals[ph] = fr.mergeVals(conds, vs, "phi_"+ph.Comment)
+			if li == nil {
+				fr.seedVal(fr.vals[ph])
+			}
 		}
 		if li != nil {
 			fr.curInstr = b.Instrs[0]
@@ -426,6 +432,9 @@ func (fr *Frame) loopHead(li *loopInfo, phis []*ssa.Phi) {
 		fr.st.alloc = a
 	}
 	li.headSt = fr.st.clone()
+	for _, ph := range phis {
+		fr.seedVal(fr.vals[ph])
+	}
 	// 3. assume invariants
 	for i, inv := range li.lc.Invariants {
 		t, err := fr.evalClause(inv, &evalCtx{fr: fr, st: fr.st, old: fr.entry, loop: li})
